@@ -332,13 +332,54 @@ Fixpoint goto_seg_match (fuel : nat) (m : xmap) (a : wargs) (r : nref) (n : node
       end
   end.
 
+Fixpoint enumerate {A} (i : nat) (xs : list A) : list (nat * A) :=
+  match xs with [] => [] | x :: r => (i, x) :: enumerate (S i) r end.
+
+(* ------------------------------------------------------------------ *)
+(* _note_missing_children (map_walker.py:269-293): the loop r starts again with its first segment; required
+   children that the instance being left does not have become pending "mandatory ... missing" entries, unless an
+   equal node (x12_node.__eq__: id and parent id) is pending already.  `pending` is computed once, before the loop. *)
+Definition note_missing_children (m : xmap) (a : wargs) (r : nref) : W unit :=
+  dow kids <- w_lift (container_children m r);
+  dow ms0 <- w_missing_get;
+  (* the count of the child cr and the pending test: evaluated only for segment children and loops that begin with
+     a segment (`self.counter.get_count(child.x12path) >= 1 or first_node in pending`) *)
+  let try_append (cr fr : nref) (nd : node) (msg : str) : W unit :=
+    dow xp <- w_lift (node_x12path m cr);
+    dow cn <- w_counter_get;
+    if negb (get_count cn xp <? 1)%Z then w_ret tt
+    else
+      dow pid <- w_lift (parent_id m fr);
+      if existsb (fun e => ostr_eqb (me_id e) (node_id nd) && ostr_eqb (me_pid e) pid) ms0 then w_ret tt
+      else append_missing m fr nd msg a in
+  w_iter (fun ic : nat * node =>
+            let cr := r ++ [fst ic] in
+            let c := snd ic in
+            if negb (usage_is (node_usage c) "R") then w_ret tt
+            else
+              match c with
+              | NSeg s0 =>
+                  try_append cr cr c (l "Mandatory segment """ ++ ostr0 (s_name s0) ++ l """ (" ++ ostr0 (s_id s0) ++ l ") missing")
+              | NLoop id _ name _ _ _ pm =>
+                  match pm_nodes pm with
+                  | (NSeg _ as first) :: _ =>
+                      try_append cr (cr ++ [0]) first (l "Mandatory loop """ ++ ostr0 name ++ l """ (" ++ ostr0 id ++ l ") missing")
+                  | _ => w_ret tt                                       (* no children, or the first child is a loop *)
+                  end
+              end) (enumerate 0 kids).
+
+(* `not (orig_node.is_loop() or orig_node.is_map_root())` *)
+Definition orig_is_segment (m : xmap) (orig : nref) : bool :=
+  match orig with
+  | [] => false
+  | _ => match node_at (root_nodes m) orig with Some (NSeg _) => true | _ => false end
+  end.
+
 (* ------------------------------------------------------------------ *)
 (* walk (map_walker.py:102-187) *)
 
 Definition walk_result := (option nref * list nref * list nref)%type.
 
-Fixpoint enumerate {A} (i : nat) (xs : list A) : list (nat * A) :=
-  match xs with [] => [] | x :: r => (i, x) :: enumerate (S i) r end.
 
 (* one turn of `while True` (135-184): scan the children of `cur` at positions >= node_pos, then pop *)
 Fixpoint walk_loop (fuel : nat) (m : xmap) (a : wargs) (orig orig_loop : nref)
@@ -363,7 +404,8 @@ Fixpoint walk_loop (fuel : nat) (m : xmap) (a : wargs) (orig orig_loop : nref)
                                 | _ => dow n <- w_lift (get_node m cur); is_loop_match 40 m a cur n
                                 end);
                      if lm then
-                       (* 144-154 *)
+                       (* 144-158 *)
+                       dow_ (if orig_is_segment m orig then note_missing_children m a cur else w_ret tt);
                        dow n <- w_lift (get_node m cur);
                        dow g <- goto_seg_match 40 m a cur n;
                        dow same <- w_lift (node_eq m cur orig_loop);
